@@ -228,3 +228,9 @@ impl<D> Index<RecordVariantId> for GenericRecordDefinitionBuilder<D> {
             .unwrap_or_else(|| panic!("variant #{} not found", index))
     }
 }
+
+// Verification hook (guard: cfg(kani), set by `cargo kani` only).
+#[cfg(kani)]
+mod verif_kani {
+    include!(concat!(env!("VERIF_KANI_DIR"), "/truc_generic_builder.rs"));
+}
